@@ -32,8 +32,11 @@ def _stimsets(rng, n):
 
 def _boundaries(case):
     """sample positions of waveform/delay boundaries of the no-pause timeline (from a reference run)"""
-    res = qc.run_impl(dict(case, ops=[['pop', 400]]))
     b = {0}
+    try:
+        res = qc.run_impl(dict(case, ops=[['pop', 400]]))
+    except Exception:
+        return sorted(b)          # whatever escapes here escapes again in impl(), where the driver reports it
     if 'raised' in res[0]:
         return sorted(b)
     for e in res[0]['events']:
@@ -168,14 +171,36 @@ def _audit_cases(quick, rng):
             c = base(pol, S2, t0=t0)
             for ops in _chunkings(c, rng, 1):
                 yield dict(c, ops=ops)
+    # E2. rates: audio rates, a rate that is not a binary fraction, below 1 Hz, very high
+    for fs in (44100.0, 48000.0, 1e6 / 3, 0.75, 12207.03125, 1e7):
+        for pol in rng.sample(qc.POLICIES, 2 if quick else 7):
+            c = base(pol, [dict(S2[0], delays=rng.choice([1, 1.5, 0.3])), dict(S2[1], kind=rng.choice(['gen', 'cos2'])), S2[2]],
+                     fs=fs, t0=rng.choice([0, 3, 2.6, -4]))
+            for ops in _chunkings(c, rng, 1):
+                yield dict(c, ops=ops)
+    # E3. extend() given tuples / ndarrays as its parallel sequences
+    for pol in qc.POLICIES:
+        c = base(pol, [dict(x, tkind=rng.choice(['int', 'np'])) for x in S2], fill='extend_np')
+        for ops in _chunkings(c, rng, 1):
+            yield dict(c, ops=ops)
+        c = base(pol, [dict(S2[0], delays=None), dict(S2[1], delays=[1, 0, 2, 1, 1, 0, 0, 2, 1, 1, 1, 1], dkind='tuple'), S2[2]], fill='extend_np')
+        for ops in _chunkings(c, rng, 1):
+            yield dict(c, ops=ops)
     # F. request sizes as NumPy integers / by keyword; zero-size and negative requests (an empty buffer, nothing else happens)
     for pol in qc.POLICIES:
         c = base(pol, S2)
         for ops in _chunkings(c, rng, 1):
             yield dict(c, ops=[o + [rng.choice(['np', 'np32', 'kw'])] for o in ops])
-    for pre in ([], [['pop', 3]], [['pop', 3], ['pop', 60]]):
-        yield dict(base('fifo', S2), ops=pre + [['pop', 0], ['pop', 4]])
-    yield dict(base('inter_keep', S2), ops=[['pop', 2], ['pop', -1]])
+    # zero-size requests are ordinary requests: first, last, repeated, and as (a, 0, b) at every boundary
+    for pol in qc.POLICIES:
+        c = base(pol, S2)
+        for ops in _chunkings(c, rng, 2):
+            for _ in range(rng.randint(1, 3)):
+                ops.insert(rng.randint(0, len(ops)), ['pop', 0, rng.choice(['', '', 'np', 'kw'])])
+            yield dict(c, ops=ops)
+        B = _boundaries(c)
+        for b in (B[1:6] if quick else B[1:]):
+            yield dict(c, ops=[['pop', 0], ['pop', b], ['pop', 0], ['pop', 0], ['pop', 5], ['pop', 60], ['pop', 0]])
     if not quick:
         for pol in qc.POLICIES:
             yield dict(base(pol, [dict(S2[0], trials=300), dict(S2[1], trials=200)]), ops=[['pop', 1], ['pop', 4000], ['pop', 7]])
@@ -272,7 +297,10 @@ def oracle(case, res):
     if len(flags) > 1:
         one = None            # automatic and manual decrement mixed: no single request is equivalent
     else:
-        one = qc.run_impl(dict(case, ops=[['pop', n, flags.pop()]]))[0]
+        try:
+            one = qc.run_impl(dict(case, ops=[['pop', n, flags.pop()]]))[0]
+        except Exception as e:
+            return f'a single request of {n} samples raised {type(e).__name__}: {e}'
     if one is None:
         pass
     elif 'raised' in one:
